@@ -78,7 +78,7 @@ def tailify(stmts: List[ast.stmt], res: Optional[str]) -> Tuple[List[ast.stmt], 
         if isinstance(s, ast.Return):
             v = s.value if s.value is not None else ast.Constant(None)
             if res is not None:
-                out.append(ast.copy_location(ast.Assign([ast.Name(res, ast.Store())], v), s))
+                out.append(ast.copy_location(ast.Assign([_target(res)], v), s))
             elif _contains(v, ast.Call):
                 out.append(ast.copy_location(ast.Expr(v), s))
             return out, True
@@ -112,6 +112,24 @@ def tailify(stmts: List[ast.stmt], res: Optional[str]) -> Tuple[List[ast.stmt], 
             raise NotInlinable("return inside a loop / try / with")
         out.append(s)
     return out, False
+
+
+def _target(res) -> ast.AST:
+    """assignment target for the call's result: a local name, or a copy of the original (side-effect free) target"""
+    if isinstance(res, str):
+        return ast.Name(res, ast.Store())
+    return copy.deepcopy(res)
+
+
+def _simple_target(t: ast.AST) -> bool:
+    if isinstance(t, ast.Name):
+        return True
+    if isinstance(t, ast.Attribute):
+        return _simple_arg(t.value)
+    if isinstance(t, ast.Subscript):
+        return _simple_arg(t.value) and all(isinstance(x, (ast.Name, ast.Constant, ast.Attribute, ast.Load, ast.Tuple, ast.UnaryOp, ast.USub, ast.Slice))
+                                            or isinstance(x, ast.expr_context) for x in ast.walk(t.slice))
+    return False
 
 
 class _Subst(ast.NodeTransformer):
@@ -312,7 +330,7 @@ class ModuleInliner:
                 prelude.append(ast.copy_location(ast.Assign([ast.Name(nm, ast.Store())], copy.deepcopy(a)), call))
                 caller_names.add(nm)
         for n_ in sorted(stored - set(bind)):
-            if n_ in caller_names and n_ != res:
+            if n_ in caller_names and n_ != (res if isinstance(res, str) else None):
                 rename[n_] = n_ + tag
         holder = _Subst(mapping, rename).visit(holder)
         body = holder.body
@@ -324,7 +342,7 @@ class ModuleInliner:
         else:
             new, term = tailify(body, res if mode == "value" else None)
             if mode == "value" and not term:
-                new = [ast.copy_location(ast.Assign([ast.Name(res, ast.Store())], ast.Constant(None)), call)] + new
+                new = [ast.copy_location(ast.Assign([_target(res)], ast.Constant(None)), call)] + new
             out = prelude + new
         return [ast.fix_missing_locations(s) for s in out] or [ast.copy_location(ast.Pass(), call)]
 
@@ -370,11 +388,12 @@ class ModuleInliner:
                     body = self.splice(h, recv, s.value, fn, "stmt", None)
                     self.inlined.append(h.node.name)
                     return body
-            if isinstance(s, ast.Assign) and len(s.targets) == 1 and isinstance(s.targets[0], ast.Name) and isinstance(s.value, ast.Call):
+            if isinstance(s, ast.Assign) and len(s.targets) == 1 and _simple_target(s.targets[0]) and isinstance(s.value, ast.Call):
                 r = self.resolve(s.value, cls)
                 if r:
                     h, recv = r
-                    body = self.splice(h, recv, s.value, fn, "value", s.targets[0].id)
+                    tg = s.targets[0]
+                    body = self.splice(h, recv, s.value, fn, "value", tg.id if isinstance(tg, ast.Name) else tg)
                     self.inlined.append(h.node.name)
                     return body
         except NotInlinable as exc:
